@@ -30,6 +30,7 @@ import LfsModel.Gen
 import LfsModel.GenApi
 import LfsModel.ApiReq
 import LfsModel.UrlEscape
+import LfsModel.PathList
 import LfsModel.Checkout
 import LfsModel.LogScan
 import LfsModel.Prune
@@ -566,6 +567,11 @@ def c18 : List String → String
 def bits (s : String) : List Bool := if s == "-" then [] else s.toList.map (· == '1')
 
 def c04 : List String → String
+  | ["paths", s] => (match unhex s with
+     | some b => (match PathList.cleanPaths b 44 with
+        | [] => "none"
+        | ps => String.intercalate "," (ps.map hex))
+     | none => "bad-op")
   | ["allows", d, inc, exc] =>
     -- pattern i matches the file iff bit i is set
     let ib := bits inc; let eb := bits exc
